@@ -1191,3 +1191,66 @@ M("C15-probe-skipped-after-first", "C15", [(READER_RS, '''        if self.packet
             self.probe_fixed_header()?;
         }''')],
   ["C15/look-ahead/probe"])
+
+# ---------------------------------------------------------------------------------------------- C08
+DESER = "src/de/deserializer.rs"
+RECV = "src/de/received_packet.rs"
+M("C08-try-take-no-guard", "C08", [(DESER, '''        if self.len() < n {
+            return Err(Error::InsufficientData);
+        }
+
+        let data''', '''        let data''')],
+  ["C08/panic/de::deserializer::MqttDeserializer::<'a>::try_take_n/call:index#1"])
+M("C08-pop-no-guard", "C08", [(DESER, '''        if self.len() == 0 {
+            return Err(Error::InsufficientData);
+        }
+
+        let byte''', '''        let byte''')],
+  ["C08/panic/de::deserializer::MqttDeserializer::<'a>::pop/assert:BoundsCheck#1"])
+M("C08-new-unwrap-on-inbound-path", "C08", [(INB, '''                let packet_id = info.packet_id.ok_or(ProtocolError::MalformedPacket)?;
+                        let reason = if self.pending_server_packet_ids.contains(&packet_id) {''', '''                let packet_id = info.packet_id.unwrap();
+                        let reason = if self.pending_server_packet_ids.contains(&packet_id) {''')],
+  ["C08/panic/inbound::<impl state::SessionData<'a>>::handle_packet/call:unwrap#1"])
+M("C08-pubrel-flags-any", "C08", [(RECV, '''            MessageType::PubRel => flags == 0b0010,''', '''            MessageType::PubRel => true,''')],
+  ["C08/tables/flags/PubRel"])
+M("C08-puback-flags-unchecked", "C08", [(RECV, '''            MessageType::ConnAck
+            | MessageType::PubAck
+            | MessageType::PubRec''', '''            MessageType::PubAck => true,
+            MessageType::ConnAck
+            | MessageType::PubRec''')],
+  ["C08/tables/flags/PubAck"])
+M("C08-trailing-garbage-on-puback", "C08", [(RECV, '''                ReceivedPacket::UnsubAck(unsuback) => {
+                    unsuback.codes = remaining_payload;
+                }''', '''                ReceivedPacket::UnsubAck(unsuback) => {
+                    unsuback.codes = remaining_payload;
+                }
+                ReceivedPacket::PubAck(_) => {}''')],
+  ["C08/tables/trailing-payload"])
+M("C08-varint-overlong-value-test", "C08", [(VARINT, '''            if shift != 0 && part == 0 {''', '''            if shift != 0 && value < 0x80 {''')],
+  ["C08/varint/overlong"])
+M("C08-varint-five-bytes", "C08", [(VARINT, '''    for shift in [0, 7, 14, 21] {''', '''    for shift in [0, 7, 14, 21, 28] {''')],
+  ["C08/varint/four-bytes"])
+M("C08-varint-top-nibble", "C08", [(VARINT, '''        if shift == 21 && part > 0x0F {''', '''        if shift == 21 && part > 0x7F {''')],
+  ["C08/varint/max-28-bits"])
+M("C08-auth-packet-accepted", "C08", [(RECV, '''            MessageType::PingResp => ReceivedPacket::PingResp,''', '''            MessageType::PingResp | MessageType::Auth => ReceivedPacket::PingResp,''')],
+  ["C08/tables/dispatch/Auth"])
+M("C08-properties-iter-no-bound", "C08", [(PROPS, '''                if *index >= props.len() {
+                    return None;
+                }
+
+                let mut deserializer''', '''                if *index > props.len() {
+                    return None;
+                }
+
+                let mut deserializer''')],
+  ["C08/panic/<properties::PropertiesIter<'a> as core::iter::Iterator>::next/call:index#1"])
+M("C08-probe-unbounded", "C08", [(READER_RS, '''        for (index, value) in self.buffer[1..self.read_bytes].iter().take(4).enumerate() {''', '''        for (index, value) in self.buffer[1..self.read_bytes].iter().enumerate() {''')],
+  ["C08/varint/reader-probe"])
+M("C08-qos3-accepted", "C08", [(RECV, '''                let qos = QoS::try_from((fixed_header >> 1) & 0b11)
+                    .map_err(|_| A::Error::custom("Bad QoS field"))?;''', '''                let qos = QoS::try_from((fixed_header >> 1) & 0b11).unwrap_or(QoS::ExactlyOnce);''')],
+  ["C08/tables/qos3"])
+M("C08-idle-returned-from-wait", "C08", [(DRIVE, '''                Progress::Advanced => return Ok(Progress::Advanced),
+                Progress::Idle => {}''', '''                Progress::Advanced => return Ok(Progress::Advanced),
+                Progress::Idle if self.session.runtime.next_ping.is_none() => return Ok(Progress::Idle),
+                Progress::Idle => {}''')],
+  ["C08/unreachable/poll-recv"])
